@@ -25,6 +25,17 @@ SPECS = [
       ["proofs/src/transcript/implementors.rs::<G1Projective as Hashable<State>>::read", "curves/src/bls12_381/g1.rs::G1Projective::from_compressed"],
       "all buffers of length 0..=48, all oracle answers", "hashable-read:g1-checked", est=10, min_covers=2,
       oracle_scenario=["g1-decode-offsubgroup", "hashable"]),
+    # the Poseidon-based transcript of midnight-circuits has its own readers of proof elements
+    H("h_transcript::hashable_poseidon_read_g1_checked", "C03.K.hashable.poseidon.read.g1",
+      "<G1Projective as Hashable<PoseidonState<Fq>>>::read returns Ok only on a FULL 48-byte encoding for which uncompress succeeded AND the on-curve AND the subgroup oracle said yes; never panics",
+      ["circuits/src/hash/poseidon/poseidon_cpu.rs::<G1Projective as Hashable<PoseidonState<Fq>>>::read"],
+      "all buffers of length 0..=48, all oracle answers", "hashable-read:poseidon-g1-checked", est=12, min_covers=2,
+      oracle_scenario=["poseidon-g1-truncated"]),
+    H("h_transcript::hashable_poseidon_read_fq_canonical", "C03.K.hashable.poseidon.read.fq",
+      "<Fq as Hashable<PoseidonState<Fq>>>::read returns Ok only on a FULL 32-byte encoding that the canonicity check accepted; never panics",
+      ["circuits/src/hash/poseidon/poseidon_cpu.rs::<Fq as Hashable<PoseidonState<Fq>>>::read"],
+      "all buffers of length 0..=32, all oracle answers", "hashable-read:poseidon-fq-canonical", est=12, min_covers=2,
+      stubs=["blst::blst_scalar_fr_check (recording oracle)", "blst::blst_fr_from_uint64", "zeroize::optimization_barrier"]),
 ]
 
 
